@@ -101,6 +101,8 @@ pub async fn run_one(rep: &mut Report, sub_seed: u64, table: Arc<Vec<Vec<u8>>>, 
     if max_epoch > snap_epoch {
         rep.count("recoveries_where_proxies_are_ahead_of_the_snapshot", 1);
     }
+    // the state as loaded from the snapshot: replayed as a stale restore after the recovery
+    let stale_snapshot = new_broker.get_all_data().await.ok();
     if let Err(e) = new_broker.verif_recover_epoch(max_epoch).await {
         cleanup();
         rep.violation("C13:recovery-refused", format!("epoch recovery failed: {}", e), ctx(json!({})));
@@ -127,6 +129,25 @@ pub async fn run_one(rep: &mut Report, sub_seed: u64, table: Arc<Vec<Vec<u8>>>, 
     if let Some(c) = new_broker.get_cluster_by_name(CLUSTER).await.ok().flatten() {
         for (clause, msg) in check_cluster_view(&c) {
             rep.violation(format!("C13:recovered-view-partition:{}", clause), msg, ctx(json!({})));
+        }
+    }
+    // (1b) a stale copy of the snapshot arriving after the recovery (the old master's periodic
+    // replication, an operator re-running the restore) must not take the served epochs back
+    if let Some(stale) = stale_snapshot {
+        let accepted = new_broker.restore_metadata(stale).await.is_ok();
+        rep.count(if accepted { "stale_restores_accepted" } else { "stale_restores_refused" }, 1);
+        for a in known.iter() {
+            if let Some(v) = new_broker.get_proxy_by_address(a).await.ok().flatten() {
+                rep.count("served_epochs_compared_after_stale_restore", 1);
+                if v.get_epoch() <= max_epoch {
+                    rep.violation(
+                        "C13:stale-restore-undoes-recovery",
+                        format!("after recovery a restore of the old snapshot was {} and the view served for {} has epoch {} although a proxy holds epoch {}", if accepted { "accepted" } else { "refused" }, a, v.get_epoch(), max_epoch),
+                        ctx(json!({"proxy_epochs": holders})),
+                    );
+                    break;
+                }
+            }
         }
     }
     // (2) bounded convergence under the recovered broker
